@@ -16,11 +16,27 @@ var simSelectMode uint32
 //go:linkname simSetSelectMode
 func simSetSelectMode(m uint32) { simSelectMode = m }
 
+// selectRandHook replaces the random draw of select's poll-order shuffle (an
+// inside-out Fisher-Yates: case i goes to position j in [0, i]). In a simulated run
+// the order must be a per-run constant, never drawn from the runtime's own PRNG:
+// every mode below is a pure function of n, and every resulting order is one the
+// unpatched runtime can produce. Mode 0 = simulation off (stock behaviour).
 func selectRandHook(n uint32) uint32 {
-	if simSelectMode == 1 {
+	switch simSelectMode {
+	case 0:
+		return cheaprandn(n)
+	case 1:
+		return n - 1 // source order
+	case 2:
+		return 0 // reverse source order
+	case 3:
+		return (n - 1) / 2
+	default:
+		if n%2 == 0 {
+			return 0
+		}
 		return n - 1
 	}
-	return cheaprandn(n)
 }
 
 //go:linkname simGoid
